@@ -7,6 +7,7 @@ godebug default=go1.20
 require (
 	github.com/youchainhq/go-youchain v0.0.0
 	golang.org/x/crypto v0.0.0-20200423211502-4bdfaf469ed5
+	gonum.org/v1/gonum v0.0.0-20190628223043-536a303fd62f
 	pgregory.net/rapid v1.3.0
 )
 
@@ -52,7 +53,6 @@ require (
 	golang.org/x/net v0.0.0-20200226121028-0de0cce0169b // indirect
 	golang.org/x/sys v0.0.0-20190904154756-749cb33beabd // indirect
 	golang.org/x/text v0.3.0 // indirect
-	gonum.org/v1/gonum v0.0.0-20190628223043-536a303fd62f // indirect
 	gopkg.in/check.v1 v1.0.0-20190902080502-41f04d3bba15 // indirect
 	gopkg.in/karalabe/cookiejar.v2 v2.0.0-20150724131613-8dcd6a7f4951 // indirect
 	gopkg.in/natefinch/lumberjack.v2 v2.0.0-20170531160350-a96e63847dc3 // indirect
